@@ -595,7 +595,7 @@ def shards(tier, seed):
     return [None]
 
 
-SHARD_TIMEOUT = dict(quick=3600, thorough=6 * 3600)
+SHARD_TIMEOUT = dict(quick=4 * 3600, thorough=12 * 3600)  # watchdog only; the box may be heavily overloaded
 
 
 def warm_history(cfg):
@@ -613,8 +613,8 @@ def warm_history(cfg):
 CONFIGS = dict(
     quick=[(w, e) for w in ("single", "twin", "seeded") for e in (True, False)]
     + [("single_noaf", True), ("falsy", True), ("falsylen", True), ("casc_su", True), ("casc_all", True), ("casc_do", True)],
-    thorough=[(w, e) for w in ("single", "twin", "seeded", "single_noaf", "falsy") for e in (True, False)]
-    + [("falsylen", True), ("casc_su", True), ("casc_all", True), ("casc_all", False), ("casc_do", True), ("casc_do", False)],
+    thorough=[(w, e) for w in ("single", "twin", "seeded") for e in (True, False)]
+    + [("single_noaf", True), ("falsy", True), ("falsy", False), ("falsylen", True), ("casc_su", True), ("casc_all", True), ("casc_all", False), ("casc_do", True), ("casc_do", False)],
 )
 
 
